@@ -1689,6 +1689,215 @@ fn check_special(c: &SpecialCase, rec: &mut Rec) -> CaseResult {
 }
 
 // =====================================================================================
+// dm / dms operators on multi-tuple sets: every tuple is converted on its own
+// =====================================================================================
+
+const OP_KINDS: [&str; 15] = [
+    "Vec<Coor4D>", "Vec<Coor3D>", "Vec<Coor2D>", "Vec<Coor32>", "slice-Coor4D", "slice-Coor3D", "slice-Coor2D", "slice-Coor32",
+    "array-Coor4D", "array-Coor3D", "array-Coor2D", "array-Coor32", "(Vec<Coor2D>,h,t)", "(Vec<Coor3D>,t)", "user-Soa3",
+];
+
+/// Build container `kind` holding `vals` and hand it to `f` as a trait object.
+/// Array kinds exist for 1 and 3 elements (callers normalise the length).
+fn with_container(kind: usize, vals: &[[f64; 4]], h: f64, t: f64, f: &mut dyn FnMut(&mut dyn CoordinateSet) -> CaseResult) -> CaseResult {
+    macro_rules! arr {
+        ($mk:ident) => {{
+            if vals.len() == 1 {
+                let mut a = [$mk(&vals[0])];
+                f(&mut a)
+            } else {
+                let mut a = [$mk(&vals[0]), $mk(&vals[1]), $mk(&vals[2])];
+                f(&mut a)
+            }
+        }};
+    }
+    match kind {
+        0 => f(&mut vals.iter().map(mk4).collect::<Vec<_>>()),
+        1 => f(&mut vals.iter().map(mk3).collect::<Vec<_>>()),
+        2 => f(&mut vals.iter().map(mk2).collect::<Vec<_>>()),
+        3 => f(&mut vals.iter().map(mk32).collect::<Vec<_>>()),
+        4 => {
+            let mut v: Vec<Coor4D> = vals.iter().map(mk4).collect();
+            let mut s = &mut v[..];
+            f(&mut s)
+        }
+        5 => {
+            let mut v: Vec<Coor3D> = vals.iter().map(mk3).collect();
+            let mut s = &mut v[..];
+            f(&mut s)
+        }
+        6 => {
+            let mut v: Vec<Coor2D> = vals.iter().map(mk2).collect();
+            let mut s = &mut v[..];
+            f(&mut s)
+        }
+        7 => {
+            let mut v: Vec<Coor32> = vals.iter().map(mk32).collect();
+            let mut s = &mut v[..];
+            f(&mut s)
+        }
+        8 => arr!(mk4),
+        9 => arr!(mk3),
+        10 => arr!(mk2),
+        11 => arr!(mk32),
+        12 => f(&mut (vals.iter().map(mk2).collect::<Vec<_>>(), h, t)),
+        13 => f(&mut (vals.iter().map(mk3).collect::<Vec<_>>(), t)),
+        _ => f(&mut Soa3 { x: vals.iter().map(|v| v[0]).collect(), y: vals.iter().map(|v| v[1]).collect(), z: vals.iter().map(|v| v[2]).collect() }),
+    }
+}
+
+#[derive(Clone, Debug, Serialize, Deserialize)]
+struct IndepCase {
+    dms: bool,
+    fwd: bool,
+    kind: u8,
+    h: F,
+    t: F,
+    /// raw tuples as handed to the container: encodings (lat, lon) for fwd, radians (lon, lat) for inv
+    pts: Vec<P4>,
+}
+
+fn check_indep(c: &IndepCase, rec: &mut Rec) -> CaseResult {
+    let kind = (c.kind as usize).min(OP_KINDS.len() - 1);
+    let kname = OP_KINDS[kind];
+    let name = if c.dms { "dms" } else { "dm" };
+    let dname = if c.fwd { "fwd" } else { "inv" };
+    let mut vals: Vec<[f64; 4]> = c.pts.iter().map(f4).collect();
+    if (8..12).contains(&kind) {
+        // arrays: exactly three tuples
+        let pad = if c.fwd { [5530.15, -1245.15, 1.0, 2.0] } else { [-0.2, 0.9, 1.0, 2.0] };
+        while vals.len() < 3 {
+            vals.push(pad);
+        }
+        vals.truncate(3);
+    }
+    let n = vals.len();
+    let f32k = matches!(kind, 3 | 7 | 11);
+    let o = op_ctx()?;
+    let h = if c.dms { o.dms } else { o.dm };
+    let (hh, tt) = (c.h.0, c.t.0);
+    let run_on = |v: &[[f64; 4]]| -> Result<(Vec<[f64; 4]>, Vec<[f64; 4]>, usize), Failure> {
+        let mut input = vec![];
+        let mut output = vec![];
+        let mut count = 0usize;
+        with_container(kind, v, hh, tt, &mut |s: &mut dyn CoordinateSet| {
+            input = (0..s.len()).map(|i| s.get_coord(i).0).collect();
+            match try_apply(&o.ctx, h, dir_of(c.fwd), s) {
+                Err(p) => vfail!(format!("panic-apply@{}", p.sig()), "applying '{name}' ({dname}) to {kname} {} panics: {} at {}:{}", show_set(v), p.msg, p.file, p.line),
+                Ok(Err(e)) => vfail!(format!("{name}-operator-error"), "apply of '{name}' ({dname}) to {kname} {} returned {e:?}", show_set(v)),
+                Ok(Ok(k)) => count = k,
+            }
+            output = (0..s.len()).map(|i| s.get_coord(i).0).collect();
+            Ok(())
+        })?;
+        Ok((input, output, count))
+    };
+    let (input, set_out, count) = run_on(&vals)?;
+    vensure!(set_out.len() == n, format!("{name}-operator-length"), "'{name}' changed the number of tuples of {kname}");
+    let nan_angle = |v: &[f64; 4]| v[0].is_nan() || v[1].is_nan();
+    let first_nan = input.iter().position(nan_angle);
+    let mut nan_before_valid = false;
+    for i in 0..n {
+        if nan_angle(&input[i]) {
+            continue; // nothing is asserted about tuples with an undefined angle
+        }
+        if matches!(first_nan, Some(j) if j < i) {
+            nan_before_valid = true;
+        }
+        // (a) the same tuple alone in a container of the same kind
+        let single_vals: Vec<[f64; 4]> = if (8..12).contains(&kind) { vec![vals[i]] } else { vec![vals[i]] };
+        let (_, single_out, single_count) = run_on(&single_vals)?;
+        vensure!(a4_eq(&set_out[i], &single_out[0]), format!("{name}-operator-depends-on-neighbours"),
+            "'{name}' ({dname}) on {kname}: tuple {i} = {} becomes {} when converted inside the set {}, but {} when converted alone (success counts {count} of {n} / {single_count} of 1); a tuple's conversion must not depend on its position or its neighbours",
+            show(&input[i]), show(&set_out[i]), show_set(&input), show(&single_out[0]));
+        rec.count("tuples_compared_set_vs_single", 1);
+        // (b) the angular module's scalar functions, element-wise (f64 containers, angles in the domain)
+        let (a0, a1) = (input[i][0], input[i][1]);
+        let in_domain = if c.fwd {
+            let lim = if c.dms { 7_200_000.0 } else { 72_000.0 };
+            a0.abs() <= lim && a1.abs() <= lim
+        } else {
+            a0.abs() <= 4.0 * PI && a1.abs() <= 4.0 * PI
+        };
+        if in_domain && !f32k {
+            let out = set_out[i];
+            let (e0, e1, t0, t1, unit) = if c.fwd {
+                // (lat, lon) encodings -> (lon, lat) radians
+                let (lat, lon) = if c.dms { (angular::iso_dms_to_dd(a0), angular::iso_dms_to_dd(a1)) } else { (angular::iso_dm_to_dd(a0), angular::iso_dm_to_dd(a1)) };
+                ((out[0].to_degrees() - lon).abs(), (out[1].to_degrees() - lat).abs(), 2.0 * tol_deg(lon), 2.0 * tol_deg(lat), "degrees")
+            } else {
+                // (lon, lat) radians -> (lat, lon) encodings; compare what the encodings denote
+                let (lon, lat) = (a0.to_degrees(), a1.to_degrees());
+                let dec = |v: f64| if c.dms { ref_decode_dms(v).0 } else { ref_decode_dm(v).0 };
+                let (xlat, xlon) = if c.dms { (angular::dd_to_iso_dms(lat), angular::dd_to_iso_dms(lon)) } else { (angular::dd_to_iso_dm(lat), angular::dd_to_iso_dm(lon)) };
+                ((dec(out[0]) - dec(xlat)).abs(), (dec(out[1]) - dec(xlon)).abs(), 2.0 * tol_deg(lat), 2.0 * tol_deg(lon), "degrees (decoded)")
+            };
+            vensure!(e0 <= t0 && e1 <= t1, format!("{name}-operator-not-elementwise"),
+                "'{name}' ({dname}) on {kname}: tuple {i} = {} of the set {} becomes {}, which differs from the angular:: scalar conversion of its first two elements by ({e0:e}, {e1:e}) {unit} (tolerance ({t0:e}, {t1:e}))",
+                show(&input[i]), show_set(&input), show(&out));
+            for k in 2..4 {
+                vensure!(bits_eq(out[k], input[i][k]), format!("{name}-operator-touches-other-elements"),
+                    "'{name}' ({dname}) on {kname}: element {k} of tuple {i} was {:?}, reads {:?} afterwards (set {})", input[i][k], out[k], show_set(&input));
+            }
+            rec.count("tuples_compared_with_scalar_functions", 1);
+        }
+    }
+    // the count is asserted only for sets without undefined or non-finite angles
+    if input.iter().all(|v| v[0].is_finite() && v[1].is_finite()) {
+        vensure!(count == n, format!("{name}-operator-count"), "'{name}' ({dname}) on {n} tuples with finite angles reports {count} successes");
+    }
+    rec.class(kname);
+    rec.class(match (first_nan, nan_before_valid) {
+        (None, _) => "order:no-NaN-angle",
+        (Some(_), true) => "order:NaN-angle-precedes-valid-tuple",
+        (Some(_), false) => "order:NaN-angle-last-or-alone",
+    });
+    if nan_before_valid {
+        rec.nontrivial(&(c.dms, c.fwd, kind, format!("{:?}", c.pts)));
+    }
+    Ok(())
+}
+
+fn show_set(v: &[[f64; 4]]) -> String {
+    let parts: Vec<String> = v.iter().map(|x| show(x)).collect();
+    format!("[{}]", parts.join(", "))
+}
+
+fn indep_strategy() -> impl Strategy<Value = IndepCase> {
+    let tuple = (sexa_strategy(), sexa_strategy(), 0u8..20, any_f64_class(), any_f64_class());
+    (any::<bool>(), any::<bool>(), 0u8..OP_KINDS.len() as u8, any_f64_class(), any_f64_class(), prop::collection::vec(tuple, 2..10)).prop_map(
+        |(dms, fwd, kind, h, t, raw)| {
+            let pts = raw
+                .into_iter()
+                .map(|(a, b, class, hh, tt)| {
+                    // a = latitude, b = longitude
+                    let (mut x, mut y) = if fwd {
+                        if dms { (a.enc_dms(), b.enc_dms()) } else { (a.enc_dm(), b.enc_dm()) }
+                    } else {
+                        (b.dd().to_radians(), a.dd().to_radians())
+                    };
+                    match class {
+                        0 | 1 | 2 => x = f64::NAN,
+                        3 | 4 => y = f64::NAN,
+                        5 => {
+                            x = f64::NAN;
+                            y = f64::NAN;
+                        }
+                        6 => x = f64::INFINITY,
+                        7 => y = f64::NEG_INFINITY,
+                        8 => x = 1.0e300,
+                        9 => y = -0.0,
+                        _ => {}
+                    }
+                    [F(x), F(y), hh, tt]
+                })
+                .collect();
+            IndepCase { dms, fwd, kind, h, t, pts }
+        },
+    )
+}
+
+// =====================================================================================
 
 fn selftest() {
     // reference decoders on hand-computed values
@@ -1719,7 +1928,7 @@ fn main() {
     run.track_inflight(false);
 
     // 1. containers
-    let n = run.scale(160_000, 4_000_000);
+    let n = run.scale(60_000, 4_000_000);
     run.section(
         "containers",
         "14 base containers (array/slice/Vec x Coor2D/3D/4D/32, user 1-D and 3-D containers on trait defaults) x 5 wrappings (plain, (T,h,t), (T,t), nested both ways) x random histories of set_coord/set_xy/set_xyz/set_xyzt/stomp over all f64 classes; after every write all readers of all indices are compared bit for bit with the view model; non-trivial = at least one indexed write on a non-empty container, distinct by kind and history",
@@ -1729,7 +1938,7 @@ fn main() {
     );
 
     // 2. tuples
-    let n = run.scale(160_000, 4_000_000);
+    let n = run.scale(60_000, 4_000_000);
     run.section(
         "tuples",
         "8 tuple types (Coor2D/3D/4D/32, (f64,f64), user types of dimension 1, 3, 5 on trait defaults) x random histories of set_nth(n in 0..8)/set_xy/set_xyz/set_xyzt/update/fill over all f64 classes; after every write nth(0..8), x/y/z/t, xy/xyz/xyzt, [] and nth_unchecked in range are compared with the model (NaN beyond the dimension); then unit conversions, scale, dot, hypot, operators (+ - * /, by value and by reference, incl. Coor2D op Coor32) and constructors against element-wise definitions; every case reads indices >= dim",
@@ -1783,7 +1992,7 @@ fn main() {
     );
 
     // 6. random angles
-    let n = run.scale(6_000, 200_000);
+    let n = run.scale(3_000, 200_000);
     run.section(
         "angles-random",
         "batches of 256 angles: uniform in [-720, 720], |a| < 1, |a| < 1e-3, 10^-e down to subnormal, just below/above exact minutes, seconds and whole degrees (10^-1 ... 10^-15), exact minutes/seconds/decimal fractions, boundaries; same per-angle checks as the lattice; non-trivial = contains an angle with fractional seconds",
@@ -1793,7 +2002,7 @@ fn main() {
     );
 
     // 7. random sexagesimal triples
-    let n = run.scale(12_000, 400_000);
+    let n = run.scale(5_000, 400_000);
     run.section(
         "sexagesimal-random",
         "batches of 64 (lat, lon) pairs of valid sexagesimal triples (d = 0 weighted 25 %, m = 0/59, s = 0, integer, 60 - 10^-e, 10^-e, milli-seconds, uniform), both signs: decoders, reverse compositions, dms_to_dd/dm_to_dd, parse_sexagesimal (6 spellings), dm and dms operators fwd/inv; non-trivial = fractional seconds present",
@@ -1805,7 +2014,17 @@ fn main() {
         check_sexa_batch,
     );
 
-    // 8. values outside the domain must not panic
+    // 8. dm / dms operators: tuple order and neighbours are irrelevant
+    let n = run.scale(20_000, 1_200_000);
+    run.section(
+        "operator-tuple-independence",
+        "dm and dms, fwd and inv, on sets of 2..9 tuples in 15 container kinds (Vec/slice/array of Coor4D/3D/2D/32, (Vec<Coor2D>,h,t), (Vec<Coor3D>,t), user Soa3); tuples in random order mix ordinary angles, zero-degree negatives, carries, NaN (30 %), +-inf, 1e300 and -0 angles and all f64 classes in h/t; every tuple without a NaN angle must come out bit for bit as when converted alone in a one-tuple container of the same kind, and (f64 containers, angles in the domain) agree with the angular:: scalar functions element-wise; count asserted only for sets with finite angles; non-trivial = a NaN-angle tuple precedes a valid tuple",
+        n,
+        indep_strategy,
+        check_indep,
+    );
+
+    // 9. values outside the domain must not panic
     run.enumerate(
         "angle-specials",
         "NaN, infinities, huge, beyond-u32, signed zeros, subnormals: no angular conversion may panic (results not compared)",
